@@ -295,9 +295,24 @@ def judgeTags (tags : Tags) (impl : String) : String :=
               | none, _ => "skip"
             else "skip"
           | [] => "skip"
+    -- Float-vs-exact-rational comparison on single slides (reported, never a verdict)
+    let singles := tags.filterMap fun (key, toks) =>
+      match scanKey key, toks with
+      | some (false, _), ty :: rest =>
+        if lower ty == "psg" then
+          match psgItemsOf rest with
+          | some [.value i t n] => some (s!"{i}>{t}:{n}", rest)
+          | _ => none
+        else none
+      | _, _ => none
+    let differing := singles.filter fun (_, rest) =>
+      (match psgCompile Arith.float rest with | .ok b => some b | .error _ => none)
+        != (match psgCompile Arith.rat rest with | .ok b => some b | .error _ => none)
+    let fq := if singles.isEmpty then "" else
+      s!" fq={singles.length}/{differing.length}" ++ (match differing.head? with | some (n, _) => s!":{n}" | none => "")
     match verdicts.find? (·.startsWith "fail") with
     | some f => f
-    | none => if verdicts.any (· == "ok") then "ok" else "skip"
+    | none => if verdicts.any (· == "ok") then "ok" ++ fq else "skip"
 
 def judge (arg impl : String) : String := judgeTags (parseIns arg) impl
 
